@@ -10,7 +10,15 @@ use std::panic::{catch_unwind, AssertUnwindSafe};
 
 pub struct EpRes { pub ep: String, pub st: i32, pub out: Vec<u8>, pub consumed: i64, pub has_more: bool, pub problems: Vec<(String, String)>, pub suspensions: Vec<(u8, i32)> }
 
+/// the inner calls of the last `ep_vec` on this thread, as a `VECI` transcript line (without id / replay key)
+pub fn take_vec_line(z_len: usize, limit: usize, r: &EpRes) -> String {
+    let t = miniz_oxide::verif_vec_trace::take();
+    let v: Vec<String> = t.iter().filter(|e| e[0] == 1).map(|e| format!("{}:{}:{}:{}:{}:{}", e[1], e[2], e[3], e[4], e[5], e[6])).collect();
+    format!("VECI in={} limit={} ok={} st={} len={} calls={}", z_len, limit, (r.st == 0) as u8, r.st, r.out.len(), if v.is_empty() { "-".into() } else { v.join(";") })
+}
+
 pub fn ep_vec(z: &[u8], zlib: bool, limit: usize) -> EpRes {
+    let _ = miniz_oxide::verif_vec_trace::take();
     let r = catch_unwind(AssertUnwindSafe(|| if zlib { decompress_to_vec_zlib_with_limit(z, limit) } else { decompress_to_vec_with_limit(z, limit) }));
     match r {
         Err(_) => EpRes { ep: "vec".into(), st: -100, out: vec![], consumed: -1, has_more: false, problems: vec![("panic".into(), "panic in decompress_to_vec".into())], suspensions: vec![] },
